@@ -68,6 +68,10 @@ def build(r, leaf_str=False, via="ctor", style=0, memo=None, _root=True):
         import puan.modules.configurator as cc
         cls = cc.Any if c == "ccAny" else cc.Xor
         dflt = ([r["d"]] + ([r["d2"]] if r.get("d2") else [])) if r.get("d") else None
+        if dflt and r.get("dobj"):
+            # the default handed over as the option OBJECT itself (documented: propositions or ids) instead of its id
+            byid = {getattr(x, "id", x): x for x in args}
+            dflt = [byid.get(i, i) for i in dflt]
         if via == "from_list":
             return cls.from_list(args, variable=ident, default=dflt or [])
         return cls(*args, default=dflt, variable=ident)
